@@ -99,6 +99,10 @@ def check_select(rep, ix):
         v = [x[0] for x in defs.get(name, [])]
         return v[0] if len(v) == 1 else None
     strt, stop, cnt, step = one('x_strt'), one('x_stop'), one('num_frames_to_write'), one('x_step')
+    keep = ('iflr_data', 'x_strt', 'x_stop', 'num_frames_to_write')
+    strt = defuse.inline_locals(f, strt, keep=keep) if strt is not None else None
+    stop = defuse.inline_locals(f, stop, keep=keep) if stop is not None else None
+    cnt = defuse.inline_locals(f, cnt, keep=keep) if cnt is not None else None
     n = 'len(iflr_data)'
     rep.ob('R-C11-SELECT', site, 'STRT is the X of record first(n)', strt is not None and _n(strt) == f'iflr_data[{sl}.first({n})].x_axis',
            found=_n(strt) if strt is not None else '', node=f, module=m)
